@@ -181,16 +181,29 @@ func c18sleep(t *testing.T, r *rt.Run, c *rt.Case, real bool) {
 		}
 		return
 	}
-	// "No further retransmission": after Sleep returned, the transaction is finished; neither a
+	// "No further retransmission": after Sleep returned (and only the transaction can have made it return), the transaction is finished; neither a
 	// DISCONNECT(duration) retransmission nor a waking PINGREQ (it carries the client ID) may follow.
+	// Only when nothing else can have made Sleep() return: with a Close() in the history Sleep() also
+	// returns because the client terminates, while its transaction is not finished and its timers
+	// legitimately run on until their next action fails.
+	if k.closeAt > 0 {
+		r.Count("sleep_transaction_events", len(evs))
+		c.Key("sleep|%s", k)
+		return
+	}
 	ret := false
+	var retT time.Duration
 	for _, e := range evs {
 		if e.Kind == world.Ret {
 			ret = true
+			retT = e.T
 			continue
 		}
 		if !ret || e.Kind != world.SNIn {
 			continue
+		}
+		if !real && e.T == retT {
+			continue // same virtual instant as the return: order within an instant is not judged
 		}
 		p, _ := snref.ParseLoose(e.B)
 		if p == nil {
